@@ -10,11 +10,16 @@
 (* DT_NULL or at the first unreadable entry) and the walk along the        *)
 (* linker's link_map list (target-controlled `l_next` pointers: the list   *)
 (* may be cyclic).  `BoundedWalk` says whether the link_map walk has a     *)
-(* bound of its own.                                                       *)
+(* bound of its own.  The steps come in the order of generate_dump: wait   *)
+(* for the stop, thread list (crash stack, IP window), module list (caller- *)
+(* supplied mappings, build id, SONAME), requested memory, linker data.     *)
 (***************************************************************************)
 EXTENDS Naturals, Sequences, FiniteSets, TLC
 CONSTANTS BoundedWalk,   \* TRUE: the link_map walk stops after MaxLinkMaps entries; FALSE: it follows l_next until 0 or an unreadable address
           MaxLinkMaps, NNodes,
+          CheckedDeadline,   \* TRUE: the deadline of the wait for the group stop is computed with a checked addition (none if it overflows); FALSE: `now + timeout`
+          CheckedExtent,     \* TRUE: the end of a caller-supplied mapping is computed with a saturating / checked addition; FALSE: `start + size`
+          WaitHasDeadline,   \* TRUE: the wait for an attached thread's stop gives up after some time; FALSE: waitpid(tid, __WALL) without a bound
           StopOnDecodeError  \* TRUE: the SONAME scan of a module's dynamic section gives up at the first entry it cannot decode; FALSE: it skips it and asks for the next
 
 SpClass  == {"none", "in_stack", "guard", "unmapped", "top_page", "misaligned", "zero"}
@@ -28,14 +33,19 @@ ListClass == {"acyclic", "cyclic", "selfloop", "dangling", "name_nonutf8", "name
 NameClass == {"plain", "dev", "version_multibyte", "no_version", "many_components", "deleted"}
 BytesClass == {"elf", "non_elf", "elf_corrupt", "elf_undyn", "elf_badnote"}   \* elf_undyn: an image whose dynamic section has no DT_NULL within its declared size;
                                                                             \* elf_badnote: its note segment / section starts with a note that cannot be decoded
+TmoClass == {"finite", "zero", "max"}                           \* the caller's stop timeout: some milliseconds, none at all, Duration::MAX ("wait for ever")
+UmapClass == {"none", "plain", "wraps"}                         \* a caller-supplied mapping: none, one somewhere, one whose start + size exceeds the address space
+ThrClass == {"stoppable", "vfork"}                              \* a thread of the target: one that stops when told to, one that sleeps in vfork() (no signal reaches it until its child execs or exits)
 NDyn == 3                                                       \* entries of a module's dynamic section before its end / DT_NULL
 Input == [sp : SpClass, ip : IpClass, phnum : PhnumClass, phdr : PhdrClass, vaddr : VaddrClass, dyn : DynClass,
-          list : ListClass, name : NameClass, bytes : BytesClass, app : AppClass]
+          list : ListClass, name : NameClass, bytes : BytesClass, app : AppClass, tmo : TmoClass, umap : UmapClass, thr : ThrClass]
 Base == [sp |-> "none", ip |-> "interior", phnum |-> "true", phdr |-> "true", vaddr |-> "le_base", dyn |-> "terminated",
-         list |-> "acyclic", name |-> "plain", bytes |-> "elf", app |-> "none"]
+         list |-> "acyclic", name |-> "plain", bytes |-> "elf", app |-> "none", tmo |-> "finite", umap |-> "none", thr |-> "stoppable"]
 Dims == DOMAIN Base
-(* all inputs that differ from the benign base vector in at most two dimensions *)
-NearBase == {i \in Input : Cardinality({d \in Dims : i[d] # Base[d]}) <= 2}
+(* all inputs that differ from the benign base vector in at most two dimensions (built up, not filtered out of Input: that has ~5 * 10^7 members) *)
+Vals == [sp |-> SpClass, ip |-> IpClass, phnum |-> PhnumClass, phdr |-> PhdrClass, vaddr |-> VaddrClass, dyn |-> DynClass, list |-> ListClass,
+         name |-> NameClass, bytes |-> BytesClass, app |-> AppClass, tmo |-> TmoClass, umap |-> UmapClass, thr |-> ThrClass]
+NearBase == UNION {{[Base EXCEPT ![d1] = v1, ![d2] = v2] : v1 \in Vals[d1], v2 \in Vals[d2]} : d1 \in Dims, d2 \in Dims}
 
 (* the link_map graph for a list class: next[k] = successor node, 0 = end of list, NNodes + 1 = unreadable address *)
 NextOf(cls) == CASE cls = "cyclic"   -> [k \in 1..NNodes |-> IF k = NNodes THEN 1 ELSE k + 1]
@@ -45,7 +55,7 @@ NextOf(cls) == CASE cls = "cyclic"   -> [k \in 1..NNodes |-> IF k = NNodes THEN 
 
 VARIABLES inp, pc, outcome, softErrs, opened, cur, count, dynpos
 vars == <<inp, pc, outcome, softErrs, opened, cur, count, dynpos>>
-Init == /\ inp \in NearBase /\ pc = "stack" /\ outcome = "running" /\ softErrs = {} /\ opened = {} /\ cur = 0 /\ count = 0 /\ dynpos = 0
+Init == /\ inp \in NearBase /\ pc = "deadline" /\ outcome = "running" /\ softErrs = {} /\ opened = {} /\ cur = 0 /\ count = 0 /\ dynpos = 0
 Go(next) == pc' = next /\ UNCHANGED <<inp, outcome, opened, cur, count, dynpos>>
 (* which step of the linker-data stream yields an error value, as a function of the input (the steps below follow it) *)
 (* an unset (zero) AT_PHNUM makes the writer complete the auxiliary values from /proc/<pid>/auxv: the harness then leaves AT_PHDR
@@ -60,9 +70,23 @@ DynFails(i)   == ~Real(i) /\ i.dyn = "unterminated"
 WalkFails(i)  == EffList(i) = "dangling"
 NamesFail(i)  == EffList(i) = "name_nonutf8"
 DsoFails(i)   == PhdrFails(i) \/ BaseFails(i) \/ DynFails(i) \/ WalkFails(i) \/ NamesFail(i)
+(* stop_process: `end = now + timeout` before polling for the group stop.  Instant + Duration panics when the sum cannot be
+   represented, which Duration::MAX guarantees; a checked addition gives "no deadline" instead (the target of the model stops) *)
+Deadline  == /\ pc = "deadline"
+             /\ IF inp.tmo = "max" /\ ~CheckedDeadline
+                  THEN pc' = "done" /\ outcome' = "panic" /\ UNCHANGED <<inp, opened, cur, count, dynpos>>
+                  ELSE Go("attachwait")
+             /\ UNCHANGED softErrs
+(* suspend_thread: PTRACE_ATTACH, then waitpid(tid, __WALL) until the thread reports its stop.  A thread in vfork() takes no
+   signal while its child neither execs nor exits (the model's child does neither), so no report comes *)
+AttachWait == /\ pc = "attachwait"
+              /\ IF inp.thr = "vfork" /\ ~WaitHasDeadline
+                   THEN UNCHANGED <<pc, inp, outcome, opened, cur, count, dynpos>>       \* still waiting
+                   ELSE Go("stack")
+              /\ UNCHANGED softErrs
 (* get_stack_info on the crash stack pointer: Ok(region) or Err(NoStackPointerMapping); never anything else *)
 StackStep == pc = "stack" /\ Go("ipwindow") /\ UNCHANGED softErrs
-IpWindow  == pc = "ipwindow" /\ Go("appmem") /\ UNCHANGED softErrs
+IpWindow  == pc = "ipwindow" /\ Go("usermaps") /\ UNCHANGED softErrs
 (* copy_from_process(ptr, length): the buffer for `length` bytes is requested fallibly; failure to get it, or to read, is Err *)
 AppMem    == /\ pc = "appmem"
              /\ IF AppFails(inp) THEN pc' = "done" /\ outcome' = "err" /\ UNCHANGED <<inp, opened, cur, count, dynpos>>
@@ -72,30 +96,37 @@ AppMem    == /\ pc = "appmem"
 PhdrStep  == /\ pc = "phdr"
              /\ IF ~PhdrFails(inp)
                   THEN Go("base") /\ UNCHANGED softErrs
-                  ELSE Go("modules") /\ softErrs' = softErrs \cup {"WriteDSODebugStreamFailed"}      \* short / failed read, absurd count: an error value
+                  ELSE Go("finish") /\ softErrs' = softErrs \cup {"WriteDSODebugStreamFailed"}      \* short / failed read, absurd count: an error value
 BaseStep  == /\ pc = "base"
              /\ IF ~BaseFails(inp) THEN Go("dynscan") /\ UNCHANGED softErrs
-                ELSE Go("modules") /\ softErrs' = softErrs \cup {"WriteDSODebugStreamFailed"}
+                ELSE Go("finish") /\ softErrs' = softErrs \cup {"WriteDSODebugStreamFailed"}
 DynScan   == /\ pc = "dynscan"
              /\ IF ~DynFails(inp) THEN pc' = "walk" /\ cur' = (IF EffList(inp) = "empty" THEN 0 ELSE 1) /\ count' = 0 /\ UNCHANGED <<inp, outcome, opened, softErrs, dynpos>>
-                ELSE Go("modules") /\ softErrs' = softErrs \cup {"WriteDSODebugStreamFailed"}
+                ELSE Go("finish") /\ softErrs' = softErrs \cup {"WriteDSODebugStreamFailed"}
 (* while curr_map != 0 { read link_map at curr_map; curr_map = l_next } *)
 Walk      == /\ pc = "walk"
              /\ IF cur = 0 \/ (BoundedWalk /\ count >= MaxLinkMaps)
                   THEN pc' = "names" /\ UNCHANGED <<cur, count, softErrs>>
                   ELSE IF cur = NNodes + 1
-                    THEN pc' = "modules" /\ softErrs' = softErrs \cup {"WriteDSODebugStreamFailed"} /\ UNCHANGED <<cur, count>>
+                    THEN pc' = "finish" /\ softErrs' = softErrs \cup {"WriteDSODebugStreamFailed"} /\ UNCHANGED <<cur, count>>
                     ELSE pc' = "walk" /\ cur' = NextOf(EffList(inp))[cur] /\ count' = (IF BoundedWalk THEN count + 1 ELSE count) /\ UNCHANGED softErrs
              /\ UNCHANGED <<inp, outcome, opened, dynpos>>
 Names     == /\ pc = "names"
              /\ IF NamesFail(inp) THEN softErrs' = softErrs \cup {"WriteDSODebugStreamFailed"} ELSE UNCHANGED softErrs
-             /\ Go("modules")
+             /\ Go("finish")
+(* is_contained_in: every mapping of the target is compared with the extent [start, start + size] of every caller-supplied mapping;
+   with overflow checks on (the profile the checks build), an unrepresentable sum is a panic *)
+UserMaps  == /\ pc = "usermaps"
+             /\ IF inp.umap = "wraps" /\ ~CheckedExtent
+                  THEN pc' = "done" /\ outcome' = "panic" /\ UNCHANGED <<inp, opened, cur, count, dynpos>>
+                  ELSE Go("modules")
+             /\ UNCHANGED softErrs
 (* module list: build id from memory, else from the file unless it lives under /dev; name / version from the path *)
 Modules   == /\ pc = "modules"
              /\ opened' = IF inp.bytes \in {"non_elf", "elf_corrupt"} /\ inp.name # "dev" /\ inp.name # "deleted" THEN opened \cup {"file"} ELSE opened
              /\ IF inp.bytes \in {"elf", "elf_undyn", "elf_badnote"}
                   THEN pc' = "notescan" /\ UNCHANGED <<outcome, dynpos>>            \* an ELF header: the notes are searched for a build id
-                  ELSE pc' = "done" /\ outcome' = "ok" /\ UNCHANGED dynpos
+                  ELSE pc' = "appmem" /\ UNCHANGED <<outcome, dynpos>>
              /\ UNCHANGED <<inp, softErrs, cur, count>>
 (* for note in NoteDataIterator { let Ok(note) = note else { break }; .. }: the iterator does not move past a note it cannot
    decode; the scan gives up there (the id then comes from the text section), or - if it skipped errors - would ask again for ever *)
@@ -111,16 +142,17 @@ SoScan    == /\ pc = "soscan"
                   THEN dynpos' = dynpos + 1 /\ UNCHANGED <<pc, outcome>>
                   ELSE IF inp.bytes = "elf_undyn" /\ ~StopOnDecodeError
                     THEN UNCHANGED <<pc, outcome, dynpos>>                          \* skip the undecodable entry, ask for the next: the same one
-                    ELSE pc' = "done" /\ outcome' = "ok" /\ UNCHANGED dynpos         \* DT_NULL, or the lookup gives up with an error value (no SONAME)
+                    ELSE pc' = "appmem" /\ UNCHANGED <<outcome, dynpos>>            \* DT_NULL, or the lookup gives up with an error value (no SONAME)
              /\ UNCHANGED <<inp, softErrs, opened, cur, count>>
-Next == StackStep \/ IpWindow \/ AppMem \/ PhdrStep \/ BaseStep \/ DynScan \/ Walk \/ Names \/ Modules \/ NoteScan \/ SoScan
+Finish    == pc = "finish" /\ pc' = "done" /\ outcome' = "ok" /\ UNCHANGED <<inp, softErrs, opened, cur, count, dynpos>>
+Next == Deadline \/ AttachWait \/ UserMaps \/ Finish \/ StackStep \/ IpWindow \/ AppMem \/ PhdrStep \/ BaseStep \/ DynScan \/ Walk \/ Names \/ Modules \/ NoteScan \/ SoScan
 Spec == Init /\ [][Next]_vars /\ WF_vars(Next)
 
 Total == outcome \in {"running", "ok", "err"}
-HardErrorIsAppMem == pc = "done" => (outcome = "err") = AppFails(inp)
+HardErrorIsAppMem == pc = "done" /\ outcome # "panic" => (outcome = "err") = AppFails(inp)
 NoDevOpen == inp.name = "dev" => opened = {}
 Terminates == <>(pc = "done")
 WalkBounded == BoundedWalk => count <= MaxLinkMaps
 (* the step machine and the closed form agree on when the linker-data stream fails softly *)
-DsoFailsIsTheSteps == pc \in {"soscan", "done"} /\ outcome # "err" => (("WriteDSODebugStreamFailed" \in softErrs) = DsoFails(inp))
+DsoFailsIsTheSteps == pc = "done" /\ outcome = "ok" => (("WriteDSODebugStreamFailed" \in softErrs) = DsoFails(inp))
 =============================================================================
